@@ -72,7 +72,7 @@ CHECKS = {
    text="Every state: eval equals eval of the mirrored twin built from scratch, no panic, outside the mate range, between the evaluations with phase forced to 24 and to 0; the blend function on a stride-257 lattice x phase 0..96 and the full square [-300,300]^2 x phase; pack/unpack round trip (thorough: all pairs in [-32767,32767]^2).",
    design="5/C16"),
  "C17": dict(
-   technique="exhaustive path enumeration: every game up to length 2-4 from the start position and 12 FENs plus every prefix of 8 long deterministic games, each sent as one position command to the real command loop; all ordered pairs of ways of writing one root sent as two commands to one engine (POSITION-PAIRS)",
+   technique="exhaustive path enumeration: every game up to length 2-4 from the start position and 12 FENs plus every prefix of 8 long deterministic games, each sent as one position command to the real command loop; all ordered pairs of ways of writing one root sent as two commands to one engine (POSITION-PAIRS); every promotion and en-passant constellation of the position families played through the text path (POSITION-FAMILIES)",
    text="After each command the engine's game equals the rules-level position (tolerant en-passant field), the FEN dump describes it, the history length equals the number of moves, the replies equal the legal moves in long algebraic form, bestmove text is well-formed and legal.",
    design="5/C17"),
  "C18": dict(
@@ -80,7 +80,7 @@ CHECKS = {
    text="For every move: text injective within the position, equal to the reference SAN (PGN standard disambiguation) modulo +/#, suffix present iff the move gives check (castling included), and parse_move(format_move(m)) == m inside catch_unwind.",
    design="5/C18"),
  "C19": dict(
-   technique="explicit-state BFS over operation histories of the real table (insert / new-search / reset / resize with colliding keys), de-duplicated on the canonical observable state, against a reference replacement policy; every history also executed without intermediate probes (probing is itself an operation); complete fill-indicator sweep, and the statistics of a 128 (512) MB table around 2^32/1000 occupied slots",
+   technique="explicit-state BFS over operation histories of the real table (insert / new-search / reset / resize with colliding keys), de-duplicated on the canonical observable state, against a reference replacement policy; every history also executed without intermediate probes (probing is itself an operation), and every sequence of 2-3 operations without any state merging; complete fill-indicator sweep, and the statistics of a 128 (512) MB table around 2^32/1000 occupied slots",
    text="After every operation of every explored history every probe of every alphabet key equals the reference policy's entry (the case the property leaves open is delegated to should_overwrite_with), occupied equals the number of occupied slots; sizes from the advertised minimum, start generations 0/254/255; fill indicator at every permille boundary up to a full table; 800 consecutive searches.",
    design="5/C19"),
  "C20": dict(
